@@ -37,6 +37,10 @@ PROJECT = {
     "Z.ucg": 'let mm = import "./M.ucg";\nlet z = fail "late";\nout json z;\n',
     # imports the library, writes its artifact, and only then fails
     "W.ucg": 'let l = import "./L.ucg";\nout json {w = l.x};\nlet late = [1].5;\n',
+    # evaluates, but the type checker refuses it (lists of unlike elements joined): fails alone
+    "H.ucg": 'let ports = [8080, 8443];\nlet names = ["http"];\nlet listen = ports + names;\nout json {h = listen};\n',
+    # reaches H through an inline import, which the checker does not follow: H is checked when it is loaded at run time
+    "I.ucg": 'let first = (import "./H.ucg").ports.0;\nout json {i = first};\n',
 }
 FILES = list(PROJECT)
 
@@ -152,7 +156,7 @@ def work_e3(chunk):
 def role(n):
     return {"A.ucg": "plain", "L.ucg": "library", "B.ucg": "importer", "M.ucg": "built-and-imported", "N.ucg": "imports-built-file",
             "X.ucg": "type-error", "Y.ucg": "runtime-failure", "T.ucg": "two-spellings", "Z.ucg": "fails-after-importing-built-file",
-            "W.ucg": "fails-after-out"}[n]
+            "W.ucg": "fails-after-out", "H.ucg": "refused-by-checker-only", "I.ucg": "imports-inline-a-file-the-checker-refuses"}[n]
 
 
 # -- E2 --------------------------------------------------------------------------------------
